@@ -36,6 +36,13 @@ def jobs(tier):
                                                                             "assert_lt_ss", "assert_eq_ss", "int_abs")):
                 js.append(dict(name="%s/n4/nest2" % e.name, entry=e.name, backend="snarkjs",
                                cfg=dict(n=4, r=2, guard=("nest", 2), bound=bound), tier=tier, weight=8))
+    from .c01 import PRELUDE_SUBSET
+    for e in CAT.build(4, "quick"):
+        if (e.name in PRELUDE_SUBSET or e.name in ("assert_lt_ss", "assert_positive", "assert_eq_ss")) and selected(e) \
+                and not (e.tags & {"truediv", "floordiv", "mod"}):        # (their division-by-zero finding is recorded for the plain modes)
+            for pre in (["false_region"], ["aborted_region"]):
+                js.append(dict(name="%s/n4/guard-after-%s" % (e.name, pre[0]), entry=e.name, backend="snarkjs",
+                               cfg=dict(n=4, r=2, guard="sym", bound=(1 << 64), prelude=pre), tier=tier, weight=3))
     return js
 
 
@@ -64,7 +71,7 @@ def run_job(env, spec):
     # plain twin (unguarded), separate skolem namespace
     E.ENG.name_prefix = "U_"
     jobU = Job(spec.get("pid", PID), env, spec, entry, spec.get("catalogue", "checks.catalogue"))
-    jobU.cfg.update(guard=None, want_ref=False)
+    jobU.cfg.update(guard=None, want_ref=False, prelude=None)     # the reference run has no history
     tracesU = jobU.explore()
     E.ENG.name_prefix = ""
     job.res["paths"] += jobU.res["paths"]
